@@ -1524,6 +1524,8 @@ static int cfg_parse_internal(cfg_t *cfg, int level, int force_state, cfg_opt_t 
 				if (comment)
 					free(comment);
 				comment = strdup(cfg_yylval);
+				if (!comment)
+					goto error;
 				continue;
 
 			default:
@@ -1621,7 +1623,8 @@ static int cfg_parse_internal(cfg_t *cfg, int level, int force_state, cfg_opt_t 
 				goto error;
 
 			/* Inherit last read comment */
-			cfg_opt_setcomment(opt, comment);
+			if (cfg_opt_setcomment(opt, comment) != CFG_SUCCESS && comment)
+				goto error;
 			if (comment)
 				free(comment);
 			comment = NULL;
